@@ -83,6 +83,11 @@ PROPS["C04"] = [
       shape="operand kinds " + n.replace("_", " x "), est=8)
     for n in _C04
 ] + [
+    H("comparison", "c04_ops_" + k, funcs=["query::comparison::Comparison::process", "query::comparable::Literal::process", "query::comparable::SingularQuery::process"] + _C04_FUNCS,
+      symbolic=sym, shape="all six operators, literal <op> @", est=40)
+    for k, sym in (("int_int", "literal int in I-JSON, node any i64"), ("float_int", "literal finite float, node I-JSON int"),
+                   ("int_float", "literal I-JSON int, node finite float"), ("cross", "literal int, node bool"))
+] + [
     H("comparison", "c04_str_str", tiers="t", funcs=_C04_FUNCS, symbolic="two strings of <= 2 arbitrary Unicode scalars each",
       shape="string x string", est=500, timeout=1800),
     H("comparison", "c04_roled_arr_if_fi", funcs=_C04_FUNCS, role="D",
@@ -150,9 +155,9 @@ PROPS["C05"] = [
     for k in ("gt", "eq", "lt", "ne")
 ] + [
     H("filter", "c05_select_obj_lt", funcs=_C05F, symbolic="2 member values, constant", shape="object of 2, predicate @ < c", est=200, timeout=900),
+    H("filter", "c05_abs_query_filter", funcs=_C05F + ["query::test::Test::process (AbsQuery)", "State::shift_to_root"], symbolic="two root elements, constant c",
+      shape="root [r0,r1], current node null, test ?$[?@ == c]", est=200, timeout=900),
     H("filter", "c05_select_scalar", funcs=_C05F, symbolic="scalar value", shape="filter on a scalar", est=20),
-    H("filter", "c05_scope_cur_root", tiers="t", funcs=_C05F + ["query::comparable::SingularQuery::process"], symbolic="root member k, two elements", shape="root {j,k}, [x0,x1][?@ == $.k]", est=2000, timeout=3000),
-    H("filter", "c05_scope_root_cur", tiers="t", funcs=_C05F + ["query::comparable::SingularQuery::process"], symbolic="root member k, two elements", shape="root {j,k}, [x0,x1][?$.k == @]", est=2000, timeout=3000),
 ]
 PROP_INFO["C05"] = {
     "bounds": "formula shapes listed per harness (<= 4 atoms, 2 levels), all valuations; existence tests on members with every value kind; child selection on arrays of 3 / objects of 2; @/$ scoping one level",
@@ -213,6 +218,8 @@ PROPS["C03"] = [
     H("selector", "c03_index_route_len3", funcs=_C03F + ["query::selector::process_index"], symbolic="i in -4..3", shape="array of 3", est=25),
     H("selector", "c03_slice_route", tiers="t", funcs=_C03F + ["query::selector::process_slice"], symbolic="start absent or 0..2, end absent, step in {-1,-2}", shape="array of 3", est=2000, timeout=3000),
     H("selector", "c03_slice_route_fixed", tiers="t", timeout=3000, funcs=_C03F + ["query::selector::process_slice"], symbolic="element payloads only (slice parameters concrete: [::-2], [1::-1])", shape="array of 3", est=60),
+    H("filter", "c03_filter_route_dup", tiers="t", funcs=_C03F + ["query::filter::Filter::process"], symbolic="element value x (both elements equal), I-JSON",
+      shape="[x, x], filter @ == x, real fmt", est=600, timeout=1800),
     H("selector", "c03_wildcard_route", funcs=_C03F + ["query::selector::process_wildcard"], symbolic="member values", shape="object {b,a} under $[7]; array of 2 under $['x']", est=90),
     H("selector", "c03_key_route_plain", funcs=_C03F + ["query::selector::process_key"], symbolic="member value", shape="names a and 'a' on {a}", est=15),
     H("selector", "c03_rolec_key_route_dquote", funcs=_C03F + ["query::selector::process_key"], role="C", symbolic="member value", shape="name \"a\" on {a}", est=15),
@@ -241,7 +248,7 @@ PROPS["C06"] = _VAL + _OPS + [_fn(k) for k in _FNS_OK]
 def _slow(h):
     h["tiers"] = ("thorough",); h["timeout"] = 3000; h["est"] = 2000
     return h
-PROPS["C07"] = _VAL + _OPS + [_fn(k) for k in _FNS_BAD] + [_slow(_fn(k)) for k in _FNS_BAD_SLOW] + [_fn("value_lit", "B")]
+PROPS["C07"] = _VAL + _OPS + [_fn(k) for k in _FNS_BAD] + [_fn("value_lit", "B")]
 PROP_INFO["C06"] = {
     "bounds": "PARTIAL: only the hand-written validators behind the grammar: validate_range (every i64), validate_js_str (strings of 1..3 scalars, any content), Comparison::try_new (every ASCII token of 1..3 bytes), TestFunction::try_new (listed well-formed calls)",
     "outside": ["the pest grammar itself (syntax, blank space, escapes, number formats, precedence) and AST construction from Pair<Rule>: pest does not go through CBMC even on a 3-byte concrete input (measured) - not applicable to this technique"],
